@@ -22,8 +22,14 @@ pub fn budget(tier: &str, quick: usize, thorough: usize) -> Budget {
 
 fn push_mapping(out: &mut Vec<String>, m: &[u8]) {
     out.push(format!("M {}", hex(m)));
-    // the domain predicate of the cache theorems (dom32 && sizes_ok) is evaluated by the model
-    out.push("DOM".into());
+    // the domain predicate of the cache theorems (dom32 && sizes_ok) is evaluated by the model for
+    // mappings of moderate size (the model's string table is an association list)
+    if m.len() < 60_000 {
+        out.push("DOM".into());
+    }
+}
+fn push_wild(out: &mut Vec<String>, m: &[u8]) {
+    out.push(format!("M {}", hex(m)));
 }
 
 const REP: GenOpts = GenOpts { dom: Dom::Representable, max_classes: 5, noise: true };
@@ -113,7 +119,7 @@ pub fn cases(prop: &str, seed: u64, tier: &str) -> Vec<String> {
                     3 => soup(&mut r),
                     _ => raw_bytes(&mut r),
                 };
-                push_mapping(&mut out, &bytes);
+                push_wild(&mut out, &bytes);
                 out.push("I".into());
             }
         }
@@ -126,11 +132,11 @@ pub fn cases(prop: &str, seed: u64, tier: &str) -> Vec<String> {
                     2 => soup(&mut r),
                     _ => metadata_file(&mut r),
                 };
-                push_mapping(&mut out, &bytes);
+                push_wild(&mut out, &bytes);
                 out.push("D".into());
             }
             for (_, bytes) in corpus_files() {
-                push_mapping(&mut out, &bytes);
+                push_wild(&mut out, &bytes);
                 out.push("D".into());
             }
         }
@@ -170,17 +176,17 @@ pub fn cases(prop: &str, seed: u64, tier: &str) -> Vec<String> {
         }
         "C18" => {
             let b = budget(tier, 150, 3000);
-            push_mapping(&mut out, b"");
+            push_wild(&mut out, b"");
             out.push("U".into());
             for (_, bytes) in corpus_files() {
                 if bytes.len() > 200_000 && !b.thorough {
                     continue;
                 }
-                push_mapping(&mut out, &bytes);
+                push_wild(&mut out, &bytes);
                 out.push("U".into());
                 // LF vs CRLF variants are different files and get different identifiers
                 let crlf: Vec<u8> = String::from_utf8_lossy(&bytes).replace('\n', "\r\n").into_bytes();
-                push_mapping(&mut out, &crlf);
+                push_wild(&mut out, &crlf);
                 out.push("U".into());
             }
             for i in 0..b.mappings {
@@ -200,8 +206,17 @@ pub fn cases(prop: &str, seed: u64, tier: &str) -> Vec<String> {
                         (0..n).map(|_| r.below(256) as u8).collect()
                     }
                 };
-                push_mapping(&mut out, &bytes);
+                // a byte order mark (or anything else) in front is part of the content
+                let bytes = if i % 11 == 3 { [&b"\xef\xbb\xbf"[..], &bytes[..]].concat() } else { bytes };
+                push_wild(&mut out, &bytes);
                 out.push("U".into());
+                if !bytes.is_empty() && bytes.len() < 20000 {
+                    // sections of an already hashed mapping are hashed on their own bytes
+                    let a = r.below(bytes.len());
+                    let b = a + r.below(bytes.len() - a + 1);
+                    out.push(format!("US {} {}", a, b));
+                    out.push("U".into());
+                }
             }
         }
         "C14" | "C09" => {
@@ -214,6 +229,10 @@ pub fn cases(prop: &str, seed: u64, tier: &str) -> Vec<String> {
                 }
                 push_mapping(&mut out, m.as_bytes());
                 out.push("W".into());
+                if i % 3 == 0 {
+                    // a write that fails half way (sink error after k calls) must not influence later writes
+                    out.push(format!("Z max=0 {}:F", 1 + r.below(4)));
+                }
                 out.push("W".into());
             }
             for (_, bytes) in corpus_files() {
@@ -348,7 +367,7 @@ pub fn cases(prop: &str, seed: u64, tier: &str) -> Vec<String> {
                     4 => soup(&mut r),
                     _ => raw_bytes(&mut r),
                 };
-                push_mapping(&mut out, &bytes);
+                push_wild(&mut out, &bytes);
                 out.push("I".into());
                 out.push("D".into());
                 out.push("W".into());
